@@ -505,8 +505,9 @@ def run_case(case: dict[str, Any]) -> dict[str, Any]:
                 # ... or a stream was open, but it broke (410, disconnect) before the client could read the DELETED line off the wire, and watching
                 # went on with a fresh listing: to the operator that is the same situation -- the deletion fell into a gap that a listing cannot show
                 read = any(typ == 'DELETED' and u == uid for x in streams if x.plural == last['plural'] for typ, u, _, _ in x.resp.fed[:x.resp.consumed])
-                nxt_after = next((r for r in pair_reqs if r.t >= last['t'] - 1e-9 and r.kind in ('list', 'watch')), None)
-                gap = not read and nxt_after is not None and nxt_after.kind == 'list'
+                # (a watch request that is answered '410 Gone' at once may come between the break and the re-listing: what matters is that the line was never
+                # read and that the pair WAS listed afresh afterwards -- a watch resumed from a version beyond the deletion, with no listing, stays a violation)
+                gap = not read and any(r.kind == 'list' and (r.t_done if r.t_done is not None else r.t) >= last['t'] - 1e-9 and r.status == 200 for r in pair_reqs)      # (answered, not sent: the deletion may land while the listing is on its way)
                 mech = 'deletion-missed-across-relisting' if ((not covered and nxt is not None and nxt.kind == 'list') or gap) else 'deletion-never-reached-processing'
                 viol.append({'mech': mech, 'msg': f"{last['plural']} {ns}/{last['body']['metadata']['name']} ({uid}), shown to the operator at "
                                                   f"t={shown[0]['t']}, was deleted at t={last['t']}: no DELETED event ever reached the event handler"
